@@ -24,7 +24,7 @@ def hardMaxProof : Int := SdnsVerif.Gen.C04.max_denial_proof_ns
 def cutMaxTTL : Int := SdnsVerif.Gen.C04.hist_cut_max_ns
 
 /-- op spacing inside one virtual second (see harness/c04/hist.go). -/
-def tau : Int := 8000000
+def tau : Int := 20000000
 
 /-! ### parsing -/
 
